@@ -543,9 +543,10 @@ impl BuiltInFunction {
 
                 let start_i64 = start as i64;
                 let end_i64 = end as i64;
-                let length = end_i64 - start_i64;
+                // i128: the difference of two (saturated) i64 values does not fit in i64
+                let length = end_i64 as i128 - start_i64 as i128;
 
-                if length > u32::MAX as i64 {
+                if length > u32::MAX as i128 {
                     return Err(RuntimeError::new(format!(
                         "list would be longer than the maximum length of {}",
                         u32::MAX
@@ -606,7 +607,7 @@ impl BuiltInFunction {
                     return Err(RuntimeError::from("median requires at least one number"));
                 }
 
-                nums.sort_by(|a, b| a.partial_cmp(b).unwrap());
+                nums.sort_by(|a, b| a.total_cmp(b));
                 let len = nums.len();
                 if len % 2 == 0 {
                     Ok(Value::Number((nums[len / 2 - 1] + nums[len / 2]) / 2.0))
@@ -629,7 +630,13 @@ impl BuiltInFunction {
                     .map(|a| a.as_number())
                     .collect::<AnyhowResult<Vec<f64>>>()?;
 
-                nums.sort_by(|a, b| a.partial_cmp(b).unwrap());
+                if nums.is_empty() {
+                    return Err(RuntimeError::from(
+                        "percentile requires at least one number"
+                    ));
+                }
+
+                nums.sort_by(|a, b| a.total_cmp(b));
                 let index = (p / 100.0 * (nums.len() - 1) as f64).round() as usize;
 
                 Ok(Value::Number(nums[index]))
